@@ -58,7 +58,9 @@ CtorExc     == {"custom_ctor2", "stdlib_ctor", "pydantic_validation"}  \* cls(m)
 FallbackExc == {"unresolvable_local", "unresolvable_nested"}           \* class cannot be re-imported: documented fallback to Exception(m)
 ExcKinds    == FixpointExc \cup StrWrapExc \cup CtorExc \cup FallbackExc
 
-EventPaths     == {"json", "json_container", "env_meta_qn", "env_meta_reg", "env_client", "env_client_str"}
+\* env_meta_reg_base: load_event with a registry that holds the event's ANCESTORS but not its class (a typed client that
+\* registered the base events only): the class is then found by its qualified name, never replaced by an ancestor
+EventPaths     == {"json", "json_container", "env_meta_qn", "env_meta_reg", "env_meta_reg_base", "env_client", "env_client_str"}
 TickEventPaths == {"tick_add", "tick_add_retry", "tick_publish", "tick_step_result", "tick_step_trigger", "tick_step_failed",
                    "tick_step_collect", "tick_step_waiter"}
 TickBarePaths  == {"tick_cancel", "tick_idle_release", "tick_timeout", "tick_waiter_timeout", "tick_idle_check"}
@@ -101,7 +103,7 @@ Spec == Init /\ [][Next]_vars
 (* ---------------------------------------------------------------- abstract wire format and reader *)
 \* how the class is named on the wire and found again
 Tag == CASE path \in {"env_client", "env_client_str"} -> "short_name"             \* EventEnvelope: type only, needs a registry
-         [] path = "env_meta_reg" -> "short_name_then_qualified"
+         [] path \in {"env_meta_reg", "env_meta_reg_base"} -> "short_name_then_qualified"
          [] OTHER -> "qualified_name"
 \* every grid class is importable and (on registry paths) registered, so the tag resolves to the class itself
 ResolvedClass == cls
